@@ -59,7 +59,7 @@ const C07_RULE: &str = "Scenario seeds are SplitMix64(VERIF_SEED, property, k); 
 
 const PUPPET_RULE: &str = "Scenario seeds are SplitMix64(VERIF_SEED, property, k); each expands into a puppet scenario (world W2): ONE real node booted through Node::new, committee of 4..7 with equal or unequal stakes, all other authorities played by the harness which holds their keys. A seeded policy delivers one action per quiescence step (valid proposals for the node's round with or without TC, equivocating siblings, stale proposals, proposals with missing payloads, votes / timeouts trickled to the node one per step when it is the collector, TCs, timer expiries, replays, sync probes) and, with a per-run probability, one of 31 kinds of invalid variant (flipped signature bits, altered signed fields with the signature kept, transplanted signatures across blocks and message kinds, certificates with repeated / non-member signers, below quorum, over another round, for future rounds).";
 
-const C14_RULE: &str = "World W3 (reliable sender): the real ReliableSender against the real network::Receiver with a handler replying ack:<message>. ENUMERATED completely: m in 1..4 messages handed over in a burst or 5 ms apart; no break or one break of the first connection at every frame position (request k lost in flight / request k just received / acknowledgement k lost in flight / acknowledgement k just received); 0..3 refused (re)connection attempts; no cancellation or the handle of message j dropped right after hand-over or 50 ms later. ON TOP, seeded exploration: up to 50 messages, several breaks on successive connections, peer-down intervals, cancellations at random instants, short writes, pending writes and split reads.";
+const C14_RULE: &str = "World W3 (reliable sender): the real ReliableSender against the real network::Receiver with a handler replying ack:<message>. ENUMERATED completely: m in 1..4 messages handed over in a burst or 5 ms apart; no break or one break of the first connection at every frame position (request k lost in flight / request k just received / acknowledgement k lost in flight / acknowledgement k just received); 0..3 refused (re)connection attempts; no cancellation or the handle of message j dropped right after hand-over, 2 ms later (written, acknowledgement in flight) or 50 ms later. ON TOP, seeded exploration: up to 50 messages, several breaks on successive connections, peer-down intervals, cancellations at random instants, short writes, pending writes and split reads.";
 
 pub fn specs() -> Vec<PropSpec> {
     vec![
@@ -94,8 +94,8 @@ pub fn specs() -> Vec<PropSpec> {
             nontrivial: |r| p(r, "rs.reset") > 0 || f(r, "refuse-scripted") > 0 || p(r, "rs.cancelled") > 0,
             nontrivial_rule: "a connection was actually broken, a connection attempt refused, or a handle dropped",
             required_probes: &["rs.retransmission", "rs.duplicate-delivery", "rs.cancelled", "rs.reset", "rs.resolved"],
-            quick_runs: 2432 + 600,
-            thorough_runs: 2432 + 60_000,
+            quick_runs: 3472 + 600,
+            thorough_runs: 3472 + 60_000,
             quick_wall_s: 150.0,
             thorough_wall_s: 1200.0,
             assumptions: &[
